@@ -56,10 +56,63 @@ fn send_one(w: &World, sport: u16, rec: &AuditRec, host_idx: usize, raw: &[u8]) 
     Sent { status, at_host: host.requests_since(cur).into_iter().map(|(_, m)| m).collect(), t_before, t_after }
 }
 
+/// C05, "the date is the proxy's current time": the engine runs four times side by side in nested namespaces, three of
+/// them under an LD_PRELOAD shim that sets CLOCK_REALTIME of the whole process (proxy, harness, oracle alike) to another
+/// instant, from which it runs on at normal speed: a single-digit day of the month, the first seconds of a year, and the
+/// last seconds of a leap day (the run crosses midnight into 1 March)
+const FAKE_CLOCKS: [(&str, i64); 3] = [("2026-10-05T08:30:00Z", 1791189000), ("2027-01-01T00:00:00Z", 1798761600), ("2028-02-29T23:59:57Z", 1835481597)];
+
+fn build_clock_shim() -> String {
+    let dir = format!("{}/run", std::env::var("VERIF_TARGET").unwrap_or("/verif/target".into()));
+    let _ = std::fs::create_dir_all(&dir);
+    let c = format!("{dir}/fakeclock.{}.c", std::process::id());
+    let so = format!("{dir}/fakeclock.{}.so", std::process::id());
+    std::fs::write(
+        &c,
+        r#"#define _GNU_SOURCE
+#include <time.h>
+#include <dlfcn.h>
+#include <stdlib.h>
+static long off; static int init;
+int clock_gettime(clockid_t c, struct timespec *ts) {
+    static int (*real)(clockid_t, struct timespec *);
+    if (!real) real = (int (*)(clockid_t, struct timespec *))dlsym(RTLD_NEXT, "clock_gettime");
+    int r = real(c, ts);
+    if (r == 0 && c == CLOCK_REALTIME) {
+        if (!init) { const char *e = getenv("FAKE_REALTIME_AT"); if (e) off = atol(e) - ts->tv_sec; init = 1; }
+        ts->tv_sec += off;
+    }
+    return r;
+}
+"#,
+    )
+    .unwrap();
+    let o = std::process::Command::new("gcc").args(["-shared", "-fPIC", "-O1", "-o", &so, &c, "-ldl"]).output().unwrap_or_else(|e| vcommon::result::machinery(&format!("gcc: {e}")));
+    if !o.status.success() {
+        vcommon::result::machinery(&format!("cannot build the clock shim: {}", String::from_utf8_lossy(&o.stderr)));
+    }
+    let _ = std::fs::remove_file(&c);
+    so
+}
+
 fn main() {
     world::install_panic_recorder();
     let thorough = is_thorough();
     let prop = std::env::var("VERIF_PROPERTY").unwrap_or("C05".into());
+    if prop == "C05" && vcommon::result::worker().is_none() && std::env::var("VERIF_REPLAY").is_err() {
+        let mut res = EngineResult::new(&prop);
+        let so = build_clock_shim();
+        let mut prep = String::from("ip addr add 168.63.129.16/32 dev lo; ip addr add 169.254.169.254/32 dev lo; ip addr add 127.0.0.2/8 dev lo 2>/dev/null; mount -t tmpfs tmpfs /var/lib/azure-proxy-agent; mount -t tmpfs tmpfs /var/log/azure-proxy-agent; ");
+        for (i, (_, at)) in FAKE_CLOCKS.iter().enumerate() {
+            prep.push_str(&format!("if [ \"$VERIF_WORKER\" = \"{}/4\" ]; then export LD_PRELOAD={so}; export FAKE_REALTIME_AT={at}; fi; ", i + 1));
+        }
+        vcommon::result::run_workers(&mut res, 4, &prep);
+        let _ = std::fs::remove_file(&so);
+        res.cov("exhaustive", true);
+        res.cov("shifted_clock_runs", json!(FAKE_CLOCKS.iter().map(|c| c.0).collect::<Vec<_>>()));
+        std::process::exit(res.finish());
+    }
+    let shifted = vcommon::result::worker().map_or(false, |(i, _)| i > 0) && prop == "C05";
     let w = World::start(WorldOpts::default());
     let mut res = EngineResult::new(&prop);
     let mut keys: HashMap<String, String> = HashMap::new();
@@ -79,6 +132,38 @@ fn main() {
     let mut sig_valid = 0u64;
     let mut sig_modulo = 0u64;
 
+    if shifted {
+        // the shim must be in force: the harness's own clock reads the shifted instant
+        let at = std::env::var("FAKE_REALTIME_AT").ok().and_then(|v| v.parse::<i64>().ok()).unwrap_or(0);
+        if (hostcheck::now_unix() - at).abs() > 120 {
+            vcommon::result::machinery("the clock shim is not in force in this worker");
+        }
+        let mut n = 0u64;
+        for round in 0..4 {
+            for route in ["signed", "exempt", "nokey"] {
+                w.set_key(if route == "nokey" { None } else { Some(K1) });
+                for (clabel, rec, hidx, elevated) in &callers {
+                    let raw = if route == "exempt" { build_request("PUT", "/vmAgentLog", &[("Host", b"metadata")], Some(b"log"), None) } else { build_request("GET", "/metadata/instance", &[("Host", b"metadata"), ("Metadata", b"true"), ("x-ms-azure-host-date", b"Thu, 01 Jan 2015 00:00:00 GMT")], None, None) };
+                    let s = send_one(&w, next_port(), rec, *hidx, &raw);
+                    n += 1;
+                    let case = json!({"family": "shifted-clock", "clock_set_to": at, "route": route, "caller": clabel, "round": round});
+                    match s.at_host.first() {
+                        Some(m) => {
+                            for (tag, what) in hostcheck::check_owned_headers(m, *elevated, s.t_before, s.t_after) {
+                                res.violation(&format!("owned-header:{tag}:shifted-clock"), &format!("{what} (the proxy's clock reads {})", String::from_utf8_lossy(m.header_all(DATE).first().copied().unwrap_or(b"?"))), case.clone());
+                            }
+                        }
+                        None => res.violation("not-relayed", "request not relayed under a shifted clock", case),
+                    }
+                }
+            }
+            std::thread::sleep(Duration::from_millis(1100));
+        }
+        res.cov("shifted_clock_requests", n);
+        res.cov("evaluations", n);
+        res.cov("distinct_nontrivial", n);
+        std::process::exit(res.finish());
+    }
     if prop == "C05" {
         // ---------------- C05 product ----------------
         let owned = [CLAIMS, DATE, AUTHZ];
@@ -389,7 +474,7 @@ fn main() {
         }
         res.cov(
             "rule",
-            format!("full product: copies of each of the three proxy-owned header names in {{0,1,2}}^3 x 3 spellings (alternating between copies) x {{plausible, garbage}} values x {{elevated caller -> WireServer, non-elevated -> IMDS}} x routes {{signed, signature-exempt upload, no key latched}}{}; each request on a fresh attributed connection; + Connection / Proxy-Connection headers nominating the proxy-owned names (4 values x with/without client copies x signed/no key x 2 callers); + chunked requests whose trailer section carries fields named like the proxy-owned headers (3 routes x 2 callers x declared/undeclared x 2 spellings); + 3 consecutive requests while the host's own Date header is decades off (past, future, garbage); + 3 requests on one kept-alive connection while the host closes its side after every answer (later requests carry client copies; whatever reaches the host is judged); non-trivial = at least one client-supplied copy", if thorough { " + requests at wall-clock offsets 0/1/60/120/180/300 s (consecutive gaps 1, 59, 60, 60, 120 s) for the date header" } else { " (quick: garbage values only with lower-case spelling)" }),
+            format!("full product: copies of each of the three proxy-owned header names in {{0,1,2}}^3 x 3 spellings (alternating between copies) x {{plausible, garbage}} values x {{elevated caller -> WireServer, non-elevated -> IMDS}} x routes {{signed, signature-exempt upload, no key latched}}{}; each request on a fresh attributed connection; + Connection / Proxy-Connection headers nominating the proxy-owned names (4 values x with/without client copies x signed/no key x 2 callers); + chunked requests whose trailer section carries fields named like the proxy-owned headers (3 routes x 2 callers x declared/undeclared x 2 spellings); + 3 consecutive requests while the host's own Date header is decades off (past, future, garbage); + 3 requests on one kept-alive connection while the host closes its side after every answer (later requests carry client copies; whatever reaches the host is judged); + the same engine three more times under a shifted wall clock (a single-digit day of the month, the first seconds of a year, the last seconds of a leap day running into 1 March; LD_PRELOAD shim on clock_gettime), the date header judged as strict IMF-fixdate; non-trivial = at least one client-supplied copy", if thorough { " + requests at wall-clock offsets 0/1/60/120/180/300 s (consecutive gaps 1, 59, 60, 60, 120 s) for the date header" } else { " (quick: garbage values only with lower-case spelling)" }),
         );
     } else {
         // ---------------- C04 end to end ----------------
